@@ -24,6 +24,7 @@ Decides:
                         a plain word, i.e. a positional whose place in the line matters.
  T empty value   `--name=` carries the empty value and does not reach for its neighbour (shared with C02).
  R registry rows every item kind hands ALL its short names (hidden aliases too) to the registry and run_inner wires the registry straight (shared with C02).
+ S forks         both alternatives of or_else are always evaluated on forks; none is adopted before the other was tried (shared with C07).
 Does not decide: invariance of the outcome under all permutations (value-level)."""
 from core import *
 from dataflow import *
